@@ -6,11 +6,16 @@ import json, os, subprocess, sys, tempfile, xml.etree.ElementTree as ET
 env = dict(os.environ)
 env.pop("WIKITEXTPROCESSOR_VERIF", None)
 base = json.load(open("/root/.vp/BASELINE.json"))
+repo = "/repo"
+if len(sys.argv) > 2 and sys.argv[1] == "--repo":
+    repo = sys.argv[2]
+    del sys.argv[1:3]
+    env["PYTHONPATH"] = repo + "/src"
 with tempfile.TemporaryDirectory() as d:
     xmlp = os.path.join(d, "r.xml")
     cmd = ["/venv/bin/python", "-m", "pytest", "-q", "-p", "no:cacheprovider", "--timeout=900",
            "--continue-on-collection-errors", f"--junitxml={xmlp}"] + sys.argv[1:]
-    p = subprocess.run(cmd, cwd="/repo", env=env, capture_output=True, text=True)
+    p = subprocess.run(cmd, cwd=repo, env=env, capture_output=True, text=True)
     passed = set()
     for tc in ET.parse(xmlp).getroot().iter("testcase"):
         if not any(c.tag in ("failure", "error", "skipped") for c in tc):
